@@ -191,6 +191,7 @@ proof fn lemma_flat_split(f: Seq<Seq<char>>, i: int)
 //@rule R30
 //@rule R24c
 //@rule subst(contains(&(idx + 1))=>contains(&(*idx + 1)))
+#[verifier::loop_isolation(false)]
 pub fn edit_word<'s>(
     word: &'s str,
     use_graphemes: bool,
